@@ -225,10 +225,14 @@ func (ps *pairScript) accept(i int, park bool) {
 	}
 	switch {
 	case sd.sesh.IsClosed():
-		_, err := sd.sesh.Accept()
+		// the queue is closed: Accept hands out what was queued when the session closed, then refuses
+		conn, err := sd.sesh.Accept()
 		res := "refused"
 		if err == nil {
-			res = "ok-on-closed"
+			s := conn.(*mux.Stream)
+			id := mux.VerifStreamID(s)
+			sd.streams[id] = s
+			res = fmt.Sprintf("ok id=%d", id)
 		}
 		ps.c.o.T("ss.accept side="+sname(i), res)
 	case q > 0:
